@@ -341,7 +341,7 @@ class Recorder:
     def query(self, idx, q, **kw):
         args = {"q": q, "key": [V(0)], "hc": []}
         ret = {"none": True, "rows": [], "items": [], "values": [], "num": 0, "den": 1, "n": 0}
-        if q == "get":
+        if q in ("get", "get_noforce"):
             key = kw["key"]
             args["key"] = [V(key[0])] + list(key[1:])
         if q == "common_rowids":
@@ -373,11 +373,34 @@ class Recorder:
                 ret["num"], ret["den"] = f.numerator, f.denominator
             elif q == "size":
                 ret["n"] = int(idx.size)
+            elif q == "ndim":
+                ret["n"] = int(idx.ndim)
+            elif q == "get_noforce":
+                r = idx.get(kw["key"], None)
+                if r is not None:
+                    ret["none"] = False
+                    ret["rows"] = [int(x) for x in np.asarray(r).tolist()]
+            elif q == "items_noforce":
+                ret["items"] = [{"k": [V(k[0])] + list(k[1:]), "rows": [int(x) for x in np.asarray(v).tolist()]}
+                                for k, v in idx.items()]
             elif q == "cube_shape":
                 from catii.ccubes import ccube
                 ret["n"] = int(ccube([idx]).interacting_shape[0])
         self._call(ev, run)
         self._finish(ev, recv=idx, ret=ret, desc=("query", q, {k: v for k, v in kw.items()}))
+
+    def common_common(self, idxs):
+        ev = self._ev("common_common", others=list(idxs))
+        res = self._call(ev, lambda: self.iindex.common_common(list(idxs)))
+        self._finish(ev, others=list(idxs), ret={"v": V(res if res is not None else 0)}, desc=("common_common", len(idxs)))
+
+    def set_if(self, idx, key, rows, copy=True):
+        args = {"key": [V(key[0])] + list(key[1:]), "rows": [] if rows is None else list(map(int, rows)), "none": rows is None,
+                "copy": bool(copy)}
+        ev = self._ev("set_if", recv=idx, args=args)
+        arg = None if rows is None else np.array(rows, dtype=np.uint32)
+        self._call(ev, lambda: idx.set_if(key, arg, copy=copy))
+        self._finish(ev, recv=idx, desc=("set_if", list(key), rows))
 
     def eq(self, a, b):
         ev = self._ev("eq", others=[a, b])
